@@ -996,6 +996,15 @@ impl Thread {
         (context.stack.len() as usize, context.stack.get_frames().len())
     }
 
+    /// Number of values rooted by `RootedValue` handles and number of child threads registered
+    #[cfg(gluon_verif)]
+    pub fn verif_root_counts(&self) -> (usize, usize) {
+        (
+            self.rooted_values.read().unwrap().len(),
+            self.child_threads.read().unwrap().len(),
+        )
+    }
+
     #[cfg(gluon_verif)]
     pub fn verif_set_collect_limit(&self, limit: usize) {
         self.owned_context().gc.verif_set_collect_limit(limit)
